@@ -247,6 +247,76 @@ class CtrSys(HSystem):
             ctx.eq('C05/CTR/%s-after-counter-setup-history' % ev[0], res, ('ok', o['exp']))
 
 
+class ModeSys(HSystem):
+    """one ECB / CBC object (or two CTR objects built on one DefaultCounter): every call must equal the stateless
+    SP 800-38A model, whatever was encrypted or decrypted through the object before - in particular the same block value
+    seen first in one direction and then in the other"""
+
+    def __init__(self, cid, mode):
+        self.cid, self.mode, self.n = cid, mode, blen(cid)
+        n = self.n
+        self.X = [msg(2 * n, 0), msg(2 * n, 1), msg(n, 1)]
+
+    def fresh(self):
+        from crysp import mode as Mo
+        from crysp.padding import nopadding
+        c = cipher(self.cid)
+        iv = iv_of('ramp', self.n)
+        if self.mode == 'ECB':
+            return {'c': c, 'o': Mo.ECB(c, pad=nopadding), 'iv': iv}
+        if self.mode == 'CBC':
+            return {'c': c, 'o': Mo.CBC(c, iv, pad=nopadding), 'iv': iv}
+        ctr = Mo.DefaultCounter(self.n).setup(iv[:self.n - self.n // 2], (7).to_bytes(self.n // 2, 'big'))
+        return {'c': c, 'o': Mo.CTR(c, ctr), 'o2': Mo.CTR(c, ctr), 'iv': iv}
+
+    def canon(self, o):
+        from mc.engine import canon
+        return (canon(o['o']), canon(o.get('o2')))
+
+    def events(self, o):
+        ev = [('enc', i) for i in range(3)] + [('dec', i) for i in range(3)] + [('dec-of-own-enc', 0), ('enc-of-own-enc', 1)]
+        if self.mode == 'CTR':
+            ev += [('enc2', 0), ('dec2', 2), ('enc2', 2)]
+        return ev
+
+    def model(self, o, direction, data):
+        n, c = self.n, o['c']
+        if self.mode == 'ECB':
+            f = c.enc if direction == 'enc' else c.dec
+            return b''.join(f(data[i:i + n]) for i in range(0, len(data), n))
+        if self.mode == 'CBC':
+            if direction == 'enc':
+                return sp800_cbc(c.enc, o['iv'], data, n)
+            blocks = [data[i:i + n] for i in range(0, len(data), n)]
+            return b''.join(xor(c.dec(blocks[i]), blocks[i - 1]) for i in range(1, len(blocks)))
+        h = n // 2
+        ks = b''.join(c.enc(o['iv'][:n - h] + (7 + j).to_bytes(h, 'big')) for j in range((len(data) + n - 1) // n))
+        return xor(data, ks)
+
+    def apply(self, o, ev):
+        t, i = ev
+        obj = o['o2'] if t.endswith('2') else o['o']
+        if t == 'dec-of-own-enc':
+            data = self.model(o, 'enc', self.X[i])
+            o['exp'] = self.model(o, 'dec', data)
+            return obj.dec(data)
+        if t == 'enc-of-own-enc':
+            data = self.model(o, 'enc', self.X[i])[-2 * self.n:]
+            o['exp'] = self.model(o, 'enc', data)
+            return obj.enc(data)
+        d = 'enc' if t.startswith('enc') else 'dec'
+        o['exp'] = self.model(o, d, self.X[i])
+        return getattr(obj, d)(self.X[i])
+
+    def judge(self, ctx, hist, ev, res, o):
+        ctx.eq('C05/%s/object-history/%s' % (self.mode, ev[0]), res, ('ok', o['exp']))
+
+
+def mode_systems(tier):
+    cids = ['stub64', 'aes128'] + (['des', 'tf256'] if tier == 'thorough' else [])
+    return {'%s-%s' % (m, cid): ModeSys(cid, m) for cid in cids for m in ('ECB', 'CBC', 'CTR')}
+
+
 def ctr_systems(tier):
     return {cid: CtrSys(cid) for cid in (['stub16', 'stub128', 'aes128', 'des'] + (['tf512', 'serpent'] if tier == 'thorough' else []))}
 
@@ -370,6 +440,8 @@ def subchecks():
             bound='CBC (pkcs7, none) and CTS_CBC over 2 stub and 9 real ciphers: 4-block messages in which block 0, 1 or 2 is chosen with cipher.dec so that its ciphertext block equals the IV / the previous ciphertext block / zero; 2 IVs; CTS tails 0, 1, blen-1'),
         hsub('ctr-counter-histories', ctr_systems, lambda tier: 3 if tier == 'quick' else 4,
              bound='one CTR object with a DefaultCounter; events: counter.setup with 3 (nonce,count) pairs (one 2 steps before the wrap), enc of 0 / 1 / 2 blocks+1 bytes, dec; all histories to depth 3 (thorough 4); every enc/dec equals SP 800-38A under the configuration set last'),
+        hsub('mode-object-histories', mode_systems, lambda tier: 3 if tier == 'quick' else 4,
+             bound='one ECB / CBC object (no padding) and a pair of CTR objects sharing one DefaultCounter, over a stub and AES (thorough + DES, Threefish-256): enc / dec of 3 fixed values, dec and enc of the object\'s own ciphertexts, calls on the second CTR object; all histories to depth 3 (thorough 4) vs the stateless SP 800-38A model'),
         Sub('cts', pts_cts, run_cts, engine='P', chunk=1,
             bound='CTS_ECB / CTS_CBC over the stub ciphers (block >= 16 bits) and 9 real ciphers, every |M| >= one block as above: length, IV first, round trip with a fresh object, whole-block case equals the plain mode'),
         Sub('sp800-38a-vectors', pts_nist, run_nist, engine='P', bound='SP 800-38A F.1.1, F.2.1, F.5.1 (AES-128)'),
